@@ -363,15 +363,16 @@ Definition pick_interest (has_sf inner_has_sf : bool) (outer : interest)
     else if is_never i && inner_has_sf then (ISometimes, p')
     else (i, p').
 
-(** Vec<S>::register_callsite: keeps the "highest" interest seen *)
-Definition vec_merge (acc ni : interest) : interest :=
-  if (is_sometimes acc && is_always ni) || (is_never acc && negb (is_never ni)) then ni else acc.
+(** Vec<S>::register_callsite: every element is asked; `never` if any element says never, `always` only if
+    all do (so an empty Vec says `always`), `sometimes` otherwise — the way [enabled] combines with `all` *)
+Definition vec_verdict (any_never all_always : bool) : interest :=
+  if any_never then INever else if all_always then IAlways else ISometimes.
 Definition reg_fold {A} (f : A -> option interest -> interest * option interest)
-  : list A -> interest -> option interest -> interest * option interest :=
-  fix go ls acc p :=
+  : list A -> bool -> bool -> option interest -> interest * option interest :=
+  fix go ls any_never all_always p :=
     match ls with
-    | [] => (acc, p)
-    | x :: xs => let '(ni, p1) := f x p in go xs (vec_merge acc ni) p1
+    | [] => (vec_verdict any_never all_always, p)
+    | x :: xs => let '(ni, p1) := f x p in go xs (any_never || is_never ni) (all_always && is_always ni) p1
     end.
 
 Fixpoint l_register (over_reg : bool) (l : layer) (m : meta) (p : option interest) {struct l}
@@ -388,7 +389,7 @@ Fixpoint l_register (over_reg : bool) (l : layer) (m : meta) (p : option interes
       pick_interest (psf o) (psf i || over_reg) oi (l_register over_reg i m) p1
   | LOpt None => (IAlways, p)
   | LOpt (Some l') => l_register over_reg l' m p
-  | LVec ls => reg_fold (fun x p => l_register over_reg x m p) ls INever p
+  | LVec ls => reg_fold (fun x p => l_register over_reg x m p) ls false true p
   end.
 
 Section Collector.
